@@ -37,7 +37,10 @@ CLAIMS = {
         'SequenceDiffBuilder.append (all inputs); deep well-formedness, schema validity and JSON round trip of every generic/notebook diff and of the diffs inside merge '
         'decisions are covered by a BOUNDED run-time contract.'),
  'C13': bounded('Before/after canonical-JSON snapshot of every argument of diff_notebooks, patch_notebook, merge_notebooks, apply_decisions and pretty_print_* (incl. valid diffs with shuffled mapping entries).', 'DESIGN.md 5/C13'),
- 'C14': bounded('Category table of the statement as oracle: no entry inside an ignored category, round trip modulo masking, empty diff when only ignored parts differ; 64 subsets x {negative flags, positive flags, Ignore mapping} through the real argparse actions.', 'DESIGN.md 5/C14'),
+ 'C14': dict(category='other', design_ref='DESIGN.md 5/C14, A4', note=TRUST if False else 'Trusted: Tier E value abstraction and effect table (listed in evidence); the bounded part explores the stated small scope only.',
+   technique='path postconditions on set_notebook_diff_targets + call-site dispatch obligations (proved) ; bounded run-time contract with the category table as oracle',
+   text='Mixed: the category->path table and key filters that set_notebook_diff_targets installs are PROVED on all 16 paths, and the dispatch lemma (recursive differ calls use config.differs[subpath] and hand on path/config) '
+        'is checked at every call site; that the resulting diff hides exactly the ignored categories (64 subsets x negative flags / positive flags / Ignore mapping) is BOUNDED.'),
 }
 
 TECH_E = 'contract-based deductive verification: path postconditions over the real AST (Tier E effect log) discharged by z3 + bounded monitor as replay harness'
